@@ -50,7 +50,7 @@ def _seeded():
                     "id": f"seeded/{name}",
                     "prop": meta["property"],
                     "patch": patch_p,
-                    "kind": "fault" if meta.get("detected_by") else "missed",
+                    "kind": "benign" if meta.get("now_benign") else ("fault" if meta.get("detected_by") else "missed"),
                     "expect": meta.get("detected_by"),
                     "also_props": meta.get("also_detected_by_properties", []),
                     "note": meta.get("summary", ""),
